@@ -74,6 +74,15 @@ class Bound(object):
         self.fn = fn
 
 
+class Closure(object):
+    """a function defined inside another one, with the variables it can see"""
+
+    def __init__(self, module, node, env):
+        self.module = module
+        self.node = node
+        self.env = env
+
+
 class Raised(Unknown):
     """the interpreted code raises (exception class name in .name); a rule that does not expect it
     reads it as 'not decided' like any other Unknown"""
@@ -145,7 +154,13 @@ def _class_member(repo, obj, name):
                 b.module = m
                 return b
             if isinstance(st, ast.Assign) and any(isinstance(t, ast.Name) and t.id == name for t in st.targets):
-                return repo.ceval(m, st.value)
+                try:
+                    v = repo.ceval(m, st.value)
+                except Unknown:
+                    v = _Interp(repo, m, {}, 0).expr(st.value)
+                if isinstance(v, Closure):
+                    return Bound(obj, v)
+                return v
     raise Unknown("attribute %s of %s" % (name, obj.cls.name))
 
 
@@ -162,26 +177,35 @@ class _Return(Exception):
         self.value = value
 
 
-def run_function(repo, ref, args=(), kwargs=None, depth=0):
-    """Interpret FuncRef `ref` (def or lambda) on concrete values."""
-    if depth > 6:
+def run_function(repo, ref, args=(), kwargs=None, depth=0, outer=None):
+    """Interpret FuncRef `ref` (def or lambda) on concrete values.  `outer`: the variables of the
+    enclosing function when `ref` is a closure."""
+    if depth > 40:
         raise Unknown("call depth")
     fn = ref.node
     module = ref.module
     names, defaults = func_params(fn)
-    env = {}
+    env = dict(outer or {})
     kwargs = dict(kwargs or {})
+    args = list(args)
+    npos = len(fn.args.posonlyargs) + len(fn.args.args)
     for i, n in enumerate(names):
-        if i < len(args):
+        if i < len(args) and i < npos:
             env[n] = args[i]
         elif n in kwargs:
             env[n] = kwargs.pop(n)
         elif n in defaults:
-            env[n] = repo.ceval(module, defaults[n])
+            env[n] = _Interp(repo, module, dict(outer or {}), depth).expr(defaults[n])
         else:
-            raise Unknown("missing argument %s" % n)
-    if kwargs:
-        raise Unknown("unexpected kwargs %s" % sorted(kwargs))
+            raise Raised("TypeError")
+    if fn.args.vararg is not None:
+        env[fn.args.vararg.arg] = tuple(args[npos:])
+    elif len(args) > npos:
+        raise Raised("TypeError")
+    if fn.args.kwarg is not None:
+        env[fn.args.kwarg.arg] = kwargs
+    elif kwargs:
+        raise Raised("TypeError")
     ev = _Interp(repo, module, env, depth)
     if isinstance(fn, ast.Lambda):
         return ev.expr(fn.body)
@@ -250,6 +274,20 @@ class _Interp(object):
             self.expr(st.value)
         elif isinstance(st, ast.Pass):
             pass
+        elif isinstance(st, ast.FunctionDef):
+            self.env[st.name] = Closure(self.module, st, self.env)
+        elif isinstance(st, (ast.Global, ast.Nonlocal, ast.Import, ast.ImportFrom)):
+            pass
+        elif isinstance(st, ast.Delete):
+            for t in st.targets:
+                if isinstance(t, ast.Name):
+                    self.env.pop(t.id, None)
+                elif isinstance(t, ast.Subscript):
+                    base = self.expr(t.value)
+                    try:
+                        del base[self.expr(t.slice)]
+                    except Exception as e:
+                        raise Raised(type(e).__name__)
         elif isinstance(st, ast.Assert):
             if not self.expr(st.test):
                 raise Raised("AssertionError")
@@ -266,7 +304,10 @@ class _Interp(object):
                 except _Continue:
                     continue
         elif isinstance(st, ast.For):
-            for x in list(self.expr(st.iter)):
+            it = self.expr(st.iter)
+            if isinstance(it, Obj):
+                it = self.dunder(it, "__iter__")
+            for x in list(it):
                 self.assign(st.target, x)
                 try:
                     self.block(st.body)
@@ -312,6 +353,8 @@ class _Interp(object):
                 self.assign(a, b)
         elif isinstance(t, ast.Attribute) and isinstance(self.expr(t.value), Obj):
             self.expr(t.value).attrs[t.attr] = v
+        elif isinstance(t, ast.Subscript) and isinstance(self.expr(t.value), Obj):
+            self.dunder(self.expr(t.value), "__setitem__", self.expr(t.slice), v)
         elif isinstance(t, ast.Subscript):
             base = self.expr(t.value)
             if not isinstance(base, (dict, list)):
@@ -343,11 +386,40 @@ class _Interp(object):
             return not self.expr(n.operand)
         if isinstance(n, ast.IfExp):
             return self.expr(n.body) if self.expr(n.test) else self.expr(n.orelse)
+        if isinstance(n, ast.Lambda):
+            return Closure(self.module, n, self.env)
+        if isinstance(n, ast.Dict):
+            out = {}
+            for k, v in zip(n.keys, n.values):
+                if k is None:
+                    out.update(self.expr(v))
+                else:
+                    out[self.expr(k)] = self.expr(v)
+            return out
+        if isinstance(n, ast.Set):
+            return set(self.expr(e) for e in n.elts)
+        if isinstance(n, (ast.SetComp, ast.DictComp)):
+            out = []
+            if isinstance(n, ast.DictComp):
+                fake = ast.ListComp(elt=ast.Tuple(elts=[n.key, n.value], ctx=ast.Load()), generators=n.generators)
+                self._comp(fake, 0, out)
+                return dict(out)
+            fake = ast.ListComp(elt=n.elt, generators=n.generators)
+            self._comp(fake, 0, out)
+            return set(out)
         if isinstance(n, ast.Compare):
             left = self.expr(n.left)
             for op, r in zip(n.ops, n.comparators):
                 right = self.expr(r)
-                if not _cmp(op, left, right):
+                if isinstance(op, (ast.In, ast.NotIn)) and isinstance(right, Obj):
+                    res = bool(self.dunder(right, "__contains__", left))
+                    res = res if isinstance(op, ast.In) else not res
+                elif isinstance(op, (ast.Eq, ast.NotEq)) and isinstance(left, Obj) and any(isinstance(st_, ast.FunctionDef) and st_.name == "__eq__" for m_, c_ in _mro(self.repo, left.module, left.cls) for st_ in c_.body):
+                    res = bool(self.dunder(left, "__eq__", right))
+                    res = res if isinstance(op, ast.Eq) else not res
+                else:
+                    res = _cmp(op, left, right)
+                if not res:
                     return False
                 left = right
             return True
@@ -367,6 +439,8 @@ class _Interp(object):
             raise Unknown("binop")
         if isinstance(n, ast.Subscript):
             v = self.expr(n.value)
+            if isinstance(v, Obj):
+                return self.dunder(v, "__getitem__", self.expr(n.slice))
             try:
                 if isinstance(n.slice, ast.Slice):
                     lo = self.expr(n.slice.lower) if n.slice.lower else None
@@ -402,7 +476,11 @@ class _Interp(object):
             if isinstance(base, Obj):
                 if n.attr in base.attrs:
                     return base.attrs[n.attr]
+                if n.attr == "__class__":
+                    return ("class", base.module.name, base.cls.name)
                 return _class_member(self.repo, base, n.attr)
+            if isinstance(base, tuple) and len(base) == 3 and base[0] == "class" and n.attr == "__name__":
+                return base[2]
             if isinstance(base, tuple) and hasattr(base, "_fields") and n.attr in base._fields:
                 return getattr(base, n.attr)
             if isinstance(base, _SplitResult) and n.attr in ("scheme", "netloc", "path", "query", "fragment", "hostname", "port", "username", "password"):
@@ -434,8 +512,18 @@ class _Interp(object):
         f = n.func
         if isinstance(f, ast.Name) and f.id == "isinstance" and f.id not in self.env and len(n.args) == 2:
             return self.isinstance_(self.expr(n.args[0]), n.args[1])
-        args = [self.expr(a) for a in n.args]
-        kwargs = {kw.arg: self.expr(kw.value) for kw in n.keywords}
+        args = []
+        for a in n.args:
+            if isinstance(a, ast.Starred):
+                args.extend(list(self.expr(a.value)))
+            else:
+                args.append(self.expr(a))
+        kwargs = {}
+        for kw in n.keywords:
+            if kw.arg is None:
+                kwargs.update(self.expr(kw.value))
+            else:
+                kwargs[kw.arg] = self.expr(kw.value)
         if isinstance(f, ast.Attribute):
             dn = self.repo.dotted(self.module, f) if not (isinstance(f.value, ast.Name) and f.value.id in self.env) else None
             if dn is None:
@@ -544,11 +632,43 @@ class _Interp(object):
                 if f.id == "map":
                     return [call(x) for x in seq]
                 return [x for x in seq if (call(x) if call is not None else x)]
+            if f.id in ("len", "iter", "list", "tuple", "sorted", "bool", "any", "all", "set", "next") and args and isinstance(args[0], Obj) and f.id not in self.module.bindings:
+                o = args[0]
+                if f.id == "len":
+                    return self.dunder(o, "__len__")
+                if f.id == "bool":
+                    try:
+                        return bool(self.dunder(o, "__bool__"))
+                    except Unknown:
+                        try:
+                            return self.dunder(o, "__len__") != 0
+                        except Unknown:
+                            return True
+                seq = list(self.dunder(o, "__iter__"))
+                if f.id == "iter":
+                    return seq
+                if f.id == "next":
+                    if seq:
+                        return seq[0]
+                    if len(args) > 1:
+                        return args[1]
+                    raise Raised("StopIteration")
+                args = [seq] + list(args[1:])
+            if f.id == "getattr" and len(args) >= 2 and isinstance(args[0], Obj) and isinstance(args[1], str):
+                o = args[0]
+                if args[1] in o.attrs:
+                    return o.attrs[args[1]]
+                try:
+                    return _class_member(self.repo, o, args[1])
+                except Unknown:
+                    if len(args) > 2:
+                        return args[2]
+                    raise Raised("AttributeError")
             if f.id in _PURE_BUILTIN_NAMES and f.id not in self.module.bindings:
                 if f.id in ("enumerate", "zip"):
                     return list({"enumerate": enumerate, "zip": zip}[f.id](*args))
                 if f.id == "callable":
-                    return isinstance(args[0], (FuncRef, Bound, Native))
+                    return isinstance(args[0], (FuncRef, Bound, Native, Closure))
                 import builtins
                 try:
                     return getattr(builtins, f.id)(*args, **kwargs)
@@ -677,11 +797,24 @@ def _class_chain_has(repo, obj, cls):
 _Interp.isinstance_ = _isinstance
 
 
+def _dunder(self, obj, name, *args):
+    """obj.__name__(*args) for an interpreted instance; Unknown when the class has no such method"""
+    m = _class_member(self.repo, obj, name)
+    return self.call_value(m, list(args), {})
+
+
+_Interp.dunder = _dunder
+
+
 def _call_value(self, v, args, kwargs):
     if isinstance(v, FuncRef):
         return run_function(self.repo, v, args, kwargs, self.depth + 1)
     if isinstance(v, Native):
         return v.fn(*args, **kwargs)
+    if isinstance(v, Closure):
+        return run_function(self.repo, FuncRef(v.module, v.node, "<closure>"), args, kwargs, self.depth + 1, outer=v.env)
+    if isinstance(v, Bound) and isinstance(v.fn, Closure):
+        return run_function(self.repo, FuncRef(v.fn.module, v.fn.node, "<closure>"), [v.obj] + list(args), kwargs, self.depth + 1, outer=v.fn.env)
     if isinstance(v, Bound):
         bm = getattr(v, "module", None) or v.obj.module
         return run_function(self.repo, FuncRef(bm, v.fn, "%s.%s.%s" % (bm.name, v.obj.cls.name, v.fn.name)), [v.obj] + list(args), kwargs, self.depth + 1)
